@@ -176,6 +176,19 @@ def search(ctx, boost=1, focus=()):
             rp = [int(np.round(pos[0])), int(np.round(pos[1]))]
             sf = [rp[i] + c - int(rng.choice([1, 2, 2 * c - 2, 2 * c - 3, c])) for i in range(2)]   # window index of the centre
             q["start_full"] = sf
+        if k % 6 == 5 and c - 3 > pat.get("radius_outer", pat["radius"]) + 1.5:
+            # a disk close to a frame edge (completely inside the frame) and a start position OUTSIDE the frame whose search window
+            # still holds the disk, at least two pixels inside its border (full-frame method)
+            ax = int(rng.integers(2))
+            near = float(rng.uniform(pat.get("radius_outer", pat["radius"]) + 1.5, c - 3))
+            pos[ax] = near if k % 12 == 5 else shape[ax] - 1 - near
+            q["pos"] = pos
+            rp = [int(np.round(pos[0])), int(np.round(pos[1]))]
+            sf = [rp[0] + int(rng.integers(-1, 2)), rp[1] + int(rng.integers(-1, 2))]
+            sf[ax] = -int(rng.integers(1, 3)) if k % 12 == 5 else shape[ax] - 1 + int(rng.integers(1, 3))
+            q["start_full"] = sf
+            q["start"] = [int(np.clip(rp[0], c, shape[0] - c)), int(np.clip(rp[1], c, shape[1] - c))]
+            ctx.count("start_outside_frame")
         if (k // 4) % 2 == 1:
             room = max(0.0, cap - max(abs(int(np.round(pos[0])) - start[0]), abs(int(np.round(pos[1])) - start[1])) - 0.5)
             room = min(room, pos[0] - c - 2, pos[1] - c - 2, shape[0] - c - 2 - pos[0], shape[1] - c - 2 - pos[1])
